@@ -106,10 +106,10 @@ Section HP.
   Variable mask : hkey -> list Z -> list Z.
 
   (* removing the protection and putting it back gives the received bytes *)
-  Lemma unprotect_inv hk short pkt off U n v :
-    unprotect hkey mask hk short pkt off = UOk U n v -> 1 <= off <= zlen pkt ->
+  Lemma unprotect_inv hk pkt off U n v :
+    unprotect hkey mask hk pkt off = UOk U n v -> 1 <= off <= zlen pkt ->
     hp_protect hkey mask hk U off n = Some pkt /\ zlen U = zlen pkt /\ 1 <= n <= 4 /\
-    n = Z.land (hd 0 U) 3 + 1 /\ Z.land (hd 0 U) (reserved_mask short) = 0 /\
+    n = Z.land (hd 0 U) 3 + 1 /\
     skipn (Z.to_nat (off + n)) U = skipn (Z.to_nat (off + n)) pkt /\ off + 20 <= zlen pkt.
   Proof.
     unfold unprotect. intros H Hoff.
@@ -119,7 +119,6 @@ Section HP.
     set (b0 := hd 0 pkt) in *.
     set (b0' := Z.lxor b0 (Z.land (hd 0 m) (hp_bits b0))) in *.
     set (n' := Z.land b0' 3 + 1) in *.
-    destruct (Z.land b0' (reserved_mask short) =? 0) eqn:Er; [|discriminate]. cbn [negb] in H.
     injection H as HU Hn _. subst n.
     assert (Hn4 : 1 <= n' <= 4).
     { unfold n'. assert (0 <= Z.land b0' 3 < 4); [|lia].
@@ -136,7 +135,7 @@ Section HP.
       cbn [skipn]. now rewrite (skipn_exact _ _ _ Hm). }
     assert (HhdU : hd 0 U = b0') by (rewrite <- HU; reflexivity).
     assert (Hpay : zlen payload = zlen pkt - off) by (apply zlen_skipn; lia).
-    split; [|split; [exact HlenU|split; [exact Hn4|split; [now rewrite HhdU|split; [|split; [|lia]]]]]].
+    split; [|split; [exact HlenU|split; [exact Hn4|split; [now rewrite HhdU|split; [|lia]]]]].
     - unfold hp_protect. rewrite HskU. rewrite zlen_app, Hpnb.
       assert (Hrest : zlen (skipn (Z.to_nat n') payload) = zlen payload - n') by (apply zlen_skipn; lia).
       rewrite Hrest. destruct (Z.ltb_spec (n' + (zlen payload - n')) (4 + SAMPLE_LEN)) as [Hc|_]; [unfold SAMPLE_LEN in Hc; lia|].
@@ -151,21 +150,19 @@ Section HP.
       { unfold sub. cbn [Z.to_nat skipn]. apply firstn_exact, Hpnb. }
       rewrite E1. rewrite (skipn_exact _ _ _ Hpnb). unfold pnb. rewrite xor_prefix_invol.
       symmetry. exact Hpl.
-    - rewrite HhdU. apply Z.eqb_eq. exact Er.
     - replace (Z.to_nat (off + n')) with (Z.to_nat n' + Z.to_nat off)%nat by lia.
       rewrite !skipn_add. rewrite HskU. fold payload.
       now rewrite (skipn_exact _ _ _ Hpnb).
   Qed.
 
-  (* protecting and then removing the protection gives the packet back (honest packets: reserved bits 0,
-     pn-length bits = n - 1) *)
-  Lemma protect_unprotect hk short U off n P :
+  (* protecting and then removing the protection gives the packet back (pn-length bits = n - 1) *)
+  Lemma protect_unprotect hk U off n P :
     hp_protect hkey mask hk U off n = Some P -> 1 <= off <= zlen U -> 1 <= n <= 4 ->
-    n = Z.land (hd 0 U) 3 + 1 -> Z.land (hd 0 U) (reserved_mask short) = 0 ->
-    exists v, unprotect hkey mask hk short P off = UOk U n v /\ zlen P = zlen U /\
+    n = Z.land (hd 0 U) 3 + 1 ->
+    exists v, unprotect hkey mask hk P off = UOk U n v /\ zlen P = zlen U /\
               v = match get_be (Z.to_nat n) 0 (sub (skipn (Z.to_nat off) U) 0 n) with Some (x, _) => x | None => 0 end.
   Proof.
-    unfold hp_protect. intros H Hoff Hn Hbits Hres.
+    unfold hp_protect. intros H Hoff Hn Hbits.
     set (payload := skipn (Z.to_nat off) U) in *.
     destruct (Z.ltb_spec (zlen payload) (4 + SAMPLE_LEN)) as [|Hlen]; [discriminate|].
     set (m := mask hk (sub payload 4 SAMPLE_LEN)) in *.
@@ -189,7 +186,7 @@ Section HP.
     { rewrite Hpl at 2. apply sample_indep; lia. }
     rewrite Hs. fold m.
     assert (HhdP : hd 0 P = Z.lxor b0 (Z.land (hd 0 m) (hp_bits b0))) by (rewrite <- HP; reflexivity).
-    rewrite HhdP, unmask_mask. fold b0 in Hbits, Hres. rewrite <- Hbits, Hres. cbn [Z.eqb negb].
+    rewrite HhdP, unmask_mask. fold b0 in Hbits. rewrite <- Hbits.
     assert (E1 : sub (pnx ++ skipn (Z.to_nat n) payload) 0 n = pnx).
     { unfold sub. cbn [Z.to_nat skipn]. apply firstn_exact, Hpnx. }
     rewrite E1. rewrite (skipn_exact _ _ _ Hpnx). unfold pnx at 1 2. rewrite xor_prefix_invol. f_equal.
@@ -243,9 +240,11 @@ Proof.
   unfold toy_enc. rewrite toy_xor_invol, E. symmetry. apply firstn_skipn.
 Qed.
 
-(* ------------------------------------------------------------------ be_packet: the pn offset is past the first byte *)
+(* ------------------------------------------------------------------ be_packet: where the packet number lies *)
 
-Lemma packet_off_pos n dg h total off : be_packet n dg = POk h total off -> 1 <= off.
+(* the pn offset is past the first byte, and a data packet has at least 20 bytes from there (sampling) *)
+Lemma packet_off_pos n dg h total off : be_packet n dg = POk h total off ->
+  1 <= off /\ (is_data h = true -> off + 20 <= total).
 Proof.
   unfold be_packet. destruct (be_packet_type dg) as [t remain|e] eqn:Et; [|discriminate].
   pose proof (be_packet_type_shrinks _ _ _ Et) as Hs.
@@ -256,7 +255,8 @@ Proof.
      (match length_data remain' with
       | Ok payload rest => if zlen payload <? 20 then PErr (PEUnderSampling (zlen payload))
                            else let total := zlen dg - zlen rest in POk h' total (total - zlen payload)
-      | Incomplete => PErr PEIncompleteHeader | Bad _ => PErr PEIncompleteHeader | Panic s => PPanic s end) = POk h total off -> 1 <= off).
+      | Incomplete => PErr PEIncompleteHeader | Bad _ => PErr PEIncompleteHeader | Panic s => PPanic s end) = POk h total off ->
+     1 <= off /\ (is_data h = true -> off + 20 <= total)).
   { intros _. destruct (safe_length_data remain') as [_ L2].
     destruct (length_data remain') as [payload rest| | |st] eqn:El; try discriminate.
     destruct (Z.ltb_spec (zlen payload) 20) as [Hlt|Hge]; [discriminate|]. intro Heq. injection Heq as _ <- <-.
@@ -266,12 +266,46 @@ Proof.
     destruct (zlen r1 <? len) eqn:Elt; [discriminate|]. injection El as <- <-.
     apply Z.ltb_ge in Elt. unfold zlen in *. rewrite firstn_length, skipn_length in *. lia. }
   destruct h'; try (apply (Long (fun _ => True))).
-  - intro H. injection H as _ <- <-. lia.
-  - intro H. injection H as _ <- <-. lia.
+  - intro H. injection H as <- <- <-. split; [lia|discriminate].
+  - intro H. injection H as <- <- <-. split; [lia|discriminate].
   - destruct (Z.ltb_spec (zlen remain') 20) as [Hlt|Hge]; [discriminate|]. intro Heq. injection Heq as _ <- <-. lia.
 Qed.
 
+(* the header form found by the parser is the form bit of the first byte *)
+Lemma be_header_type t n bs h r : be_header t n bs = Ok h r -> header_type h = t.
+Proof.
+  destruct t as [|v|spin]; [|destruct v|]; unfold be_header, bind, ret;
+    repeat match goal with
+           | |- context [match ?x with _ => _ end] => destruct x eqn:?; try discriminate
+           end;
+    intro H; injection H as <- <-; reflexivity.
+Qed.
+
+Lemma be_packet_form n dg h total off : be_packet n dg = POk h total off ->
+  is_short h = negb (bit_set (hd 0 dg) 128).
+Proof.
+  unfold be_packet. destruct (be_packet_type dg) as [t remain|e] eqn:Et; [|discriminate].
+  destruct (be_header t n remain) as [h' remain'| | |st] eqn:Eh; try discriminate.
+  apply be_header_type in Eh.
+  assert (Hh : h = h' -> is_short h = negb (bit_set (hd 0 dg) 128)).
+  { intros ->. unfold be_packet_type in Et. destruct dg as [|ty r]; [discriminate|]. cbn [hd].
+    destruct (bit_set ty 128) eqn:Eb; cbn [negb] in *.
+    - destruct (get_be 4 0 r) as [[ver r']|]; [|discriminate].
+      destruct (ver =? 0); [injection Et as <- _; destruct h'; try discriminate; reflexivity|].
+      destruct (ver =? 1); [|discriminate]. destruct (negb (bit_set ty 64)); [discriminate|].
+      injection Et as <- _. destruct h'; try discriminate; reflexivity.
+    - injection Et as <- _. destruct h'; try discriminate; reflexivity. }
+  destruct h'; cbn [is_short].
+  1,2: intro H; injection H as <- _ _; apply Hh; reflexivity.
+  1,2,3: destruct (length_data remain') as [payload rest| | |]; try discriminate;
+         destruct (zlen payload <? 20); [discriminate|]; intro H; injection H as <- _ _; apply Hh; reflexivity.
+  destruct (zlen remain' <? 20); [discriminate|]. intro H; injection H as <- _ _; apply Hh; reflexivity.
+Qed.
+
 (* ------------------------------------------------------------------ rejection of anything but the packet sent *)
+
+Definition dropped (r : rx) : Prop :=
+  match r with RxParse _ | RxInvalidPn | RxDecrypt | RxNotData _ => True | _ => False end.
 
 Section Tamper.
   Variables key hkey : Type.
@@ -287,54 +321,99 @@ Section Tamper.
   Definition no_forgery (k : key) (pn : Z) (aad body dg : list Z) : Prop :=
     forall k' n' a' p' l r, dg = l ++ enc k' n' a' p' ++ r -> k' = k /\ n' = pn /\ a' = aad /\ p' = body.
 
-  Lemma recv1_accept_inv k hk dl exp dg h total pn ph body :
-    recv1 key hkey dec mask k hk dl exp dg = RxAccept h total pn ph body ->
-    exists off U n v, be_packet dl dg = POk h total off /\
-      unprotect hkey mask hk (is_short h) (firstn (Z.to_nat total) dg) off = UOk U n v /\
+  (* the receive path either drops the datagram, or it found a packet whose AEAD check SUCCEEDED and then
+     answers by the reserved bits of that authenticated packet: connection error or delivery *)
+  Lemma recv1_cases k hk dl exp dg : (forall n v, decode (mk_pnum n v) exp <> DecOverflow) ->
+    let r := recv1 key hkey dec mask k hk dl exp dg in
+    dropped r \/
+    exists h total off U n v pn body, be_packet dl dg = POk h total off /\ is_data h = true /\
+      unprotect hkey mask hk (firstn (Z.to_nat total) dg) off = UOk U n v /\
       dec k pn (firstn (Z.to_nat (off + n)) U) (skipn (Z.to_nat (off + n)) U) = Some body /\
-      0 <= exp /\ decode (mk_pnum n v) exp = DecOk pn /\ ph = (is_short h && bit_set (hd 0 U) 4).
+      0 <= exp /\ decode (mk_pnum n v) exp = DecOk pn /\
+      r = if negb (Z.land (hd 0 U) (reserved_mask (is_short h)) =? 0) then RxConnErr
+          else RxAccept h total pn (is_short h && bit_set (hd 0 U) 4) body.
   Proof.
-    unfold recv1, recv. destruct (be_packet dl dg) as [h' total' off|e|s]; cbn [fst]; try discriminate.
-    destruct h' as [d s vs|d s tok integ|d s tok|d s|d s|spin d]; cbn [fst]; try discriminate.
-    all: match goal with |- context [unprotect _ _ _ ?sh ?p ?o] => destruct (unprotect hkey mask hk sh p o) as [U n v| |] eqn:EU end;
-      cbn [fst]; try discriminate.
-    all: destruct (Z.ltb_spec exp 0) as [|Hexp]; cbn [fst]; try discriminate.
-    all: destruct (decode (mk_pnum n v) exp) as [pn'|] eqn:Ed; cbn [fst]; try discriminate.
-    all: cbn [is_short fst snd andb].
-    all: match goal with |- context [dec ?k ?n ?a ?c] => destruct (dec k n a c) as [b|] eqn:Edec end; cbn [fst]; try discriminate.
-    all: intro H; injection H as <- <- <- <- <-.
-    all: exists off, U, n, v; repeat split; auto.
+    intros Hov. cbv zeta. unfold recv1, recv.
+    destruct (be_packet dl dg) as [h total off|e|s] eqn:Ebe; cbn [fst];
+      [|left; exact I|exfalso; exact (p_c03_packet_no_panic _ _ _ Ebe)].
+    destruct (packet_off_pos _ _ _ _ _ Ebe) as [Ho1 Ho20]. pose proof (p_c03_packet_bounds _ _ _ _ _ Ebe) as [Ht Ho].
+    assert (Hdata : is_data h = true ->
+      let pkt := firstn (Z.to_nat total) dg in
+      forall sh : bool, sh = is_short h ->
+      (let X := match unprotect hkey mask hk pkt off with
+        | UOk pkt' pnlen v =>
+            if exp <? 0 then (RxInvalidPn, tt)
+            else match decode (mk_pnum pnlen v) exp with
+                 | DecOk pn =>
+                     let '(ko, s') := if sh then (Some k, tt) else (Some k, tt) in
+                     match ko with
+                     | Some k0 =>
+                         match dec k0 pn (firstn (Z.to_nat (off + pnlen)) pkt') (skipn (Z.to_nat (off + pnlen)) pkt') with
+                         | Some body => if negb (Z.land (hd 0 pkt') (reserved_mask sh) =? 0) then (RxConnErr, s')
+                                        else (RxAccept h total pn (sh && bit_set (hd 0 pkt') 4) body, s')
+                         | None => (RxDecrypt, s')
+                         end
+                     | None => (RxPanic 3, s')
+                     end
+                 | DecOverflow => (RxPanic 2, tt)
+                 end
+        | UPanic => (RxPanic 1, tt)
+        end in
+       dropped (fst X) \/
+       exists U n v pn body, unprotect hkey mask hk pkt off = UOk U n v /\
+         dec k pn (firstn (Z.to_nat (off + n)) U) (skipn (Z.to_nat (off + n)) U) = Some body /\
+         0 <= exp /\ decode (mk_pnum n v) exp = DecOk pn /\
+         fst X = if negb (Z.land (hd 0 U) (reserved_mask sh) =? 0) then RxConnErr
+                 else RxAccept h total pn (sh && bit_set (hd 0 U) 4) body)).
+    { intros Hd pkt sh Hsh. cbv zeta.
+      assert (Hlp : zlen pkt = total) by (apply zlen_firstn; lia). specialize (Ho20 Hd).
+      destruct (unprotect hkey mask hk pkt off) as [U n v|] eqn:EU.
+      2:{ exfalso. unfold unprotect in EU. rewrite zlen_skipn in EU by lia. unfold SAMPLE_LEN in EU.
+          destruct (Z.ltb_spec (zlen pkt - off) (4 + 16)); [lia|discriminate]. }
+      destruct (Z.ltb_spec exp 0) as [|Hexp]; [left; exact I|].
+      destruct (decode (mk_pnum n v) exp) as [pn|] eqn:Ed; [|exfalso; exact (Hov _ _ Ed)].
+      assert (Hsel : (if sh then (Some k, tt) else (Some k, tt)) = (Some k, tt)) by (destruct sh; reflexivity).
+      rewrite Hsel.
+      destruct (dec k pn (firstn (Z.to_nat (off + n)) U) (skipn (Z.to_nat (off + n)) U)) as [body|] eqn:Edec; [|left; exact I].
+      right. exists U, n, v, pn, body. repeat split; auto.
+      destruct (negb (Z.land (hd 0 U) (reserved_mask sh) =? 0)); reflexivity. }
+    destruct h as [d s vs|d s tok integ|d s tok|d s|d s|spin d]; cbn [fst]; try (left; exact I).
+    all: destruct (Hdata eq_refl _ eq_refl) as [Hdrop|(U & n & v & pn & body & HU & Hdec & Hexp & Hd & Hr)];
+      [left; exact Hdrop|right].
+    all: eexists _, total, off, U, n, v, pn, body; repeat split; auto.
   Qed.
 
   (* MAIN LEMMA.  [U0 = aad ++ enc k pn aad body] is the packet before header protection, [P] the
      packet on the wire.  Whatever datagram is handed to a receiver holding ANY packet key k' and
-     header key hk', decoding packet numbers against ANY expectation: if it is accepted then the
-     receiver used the sender's key, decoded the sender's packet number and delivers the sender's
-     body — and, when it removes header protection with the sender's header key, the accepted
-     packet is bit for bit the packet sent. *)
-  Lemma p_c06_tamper k hk pn aad body off0 w P k' hk' dl exp dg h total pn' ph body' :
+     header key hk', decoding packet numbers against ANY expectation: if a packet in it passes the AEAD check
+     then the receiver used the sender's key, decoded the sender's packet number, obtained the sender's
+     body, the unprotected packet is the sender's — and, when header protection was removed with the
+     sender's header key, the packet is bit for bit the packet sent. *)
+  Lemma p_c06_authentic k hk pn aad body off0 w P k' hk' dl dg h total off U n v pn' body' :
     hp_protect hkey mask hk (aad ++ enc k pn aad body) off0 w = Some P ->
     zlen aad = off0 + w -> w = Z.land (hd 0 aad) 3 + 1 -> aad <> [] ->
     no_forgery k pn aad body dg ->
-    recv1 key hkey dec mask k' hk' dl exp dg = RxAccept h total pn' ph body' ->
-    k' = k /\ pn' = pn /\ body' = body /\ (hk' = hk -> firstn (Z.to_nat total) dg = P).
+    be_packet dl dg = POk h total off ->
+    unprotect hkey mask hk' (firstn (Z.to_nat total) dg) off = UOk U n v ->
+    dec k' pn' (firstn (Z.to_nat (off + n)) U) (skipn (Z.to_nat (off + n)) U) = Some body' ->
+    k' = k /\ pn' = pn /\ body' = body /\ U = aad ++ enc k pn aad body /\
+    (hk' = hk -> firstn (Z.to_nat total) dg = P).
   Proof.
-    intros HP Hla Hw Hne Hnf Hacc.
-    destruct (recv1_accept_inv _ _ _ _ _ _ _ _ _ _ Hacc) as (off & U & n & v & Hbe & HU & Hdec & _ & _ & _).
-    pose proof (p_c03_packet_bounds _ _ _ _ _ Hbe) as [Ht Ho]. pose proof (packet_off_pos _ _ _ _ _ Hbe) as Ho1.
+    intros HP Hla Hw Hne Hnf Hbe HU Hdec.
+    pose proof (p_c03_packet_bounds _ _ _ _ _ Hbe) as [Ht Ho]. destruct (packet_off_pos _ _ _ _ _ Hbe) as [Ho1 _].
     set (pkt := firstn (Z.to_nat total) dg) in *.
     assert (Hlp : zlen pkt = total) by (apply zlen_firstn; lia).
-    destruct (unprotect_inv hkey mask hk' (is_short h) pkt off U n v HU ltac:(lia))
-      as (Hprot & HlU & Hn4 & Hn & _ & Hsk & H20).
+    destruct (unprotect_inv hkey mask hk' pkt off U n v HU ltac:(lia))
+      as (Hprot & HlU & Hn4 & Hn & Hsk & H20).
     apply auth in Hdec.
     (* the datagram contains the accepted ciphertext as a segment *)
     assert (Hdg : dg = firstn (Z.to_nat (off + n)) pkt ++ enc k' pn' (firstn (Z.to_nat (off + n)) U) body' ++ skipn (Z.to_nat total) dg).
     { rewrite <- Hdec, Hsk, app_assoc, firstn_skipn. unfold pkt. now rewrite firstn_skipn. }
     destruct (Hnf _ _ _ _ _ _ Hdg) as (-> & -> & Ha & ->).
-    split; [reflexivity|split; [reflexivity|split; [reflexivity|]]].
-    intros ->.
     assert (HUeq : U = aad ++ enc k pn aad body).
     { rewrite <- (firstn_skipn (Z.to_nat (off + n)) U). rewrite Hdec, Ha. reflexivity. }
+    split; [reflexivity|split; [reflexivity|split; [reflexivity|split; [exact HUeq|]]]].
+    intros ->.
     assert (Hla' : zlen aad = off + n).
     { rewrite <- Ha. apply zlen_firstn. lia. }
     assert (Hhd : hd 0 U = hd 0 aad) by (rewrite HUeq; destruct aad; [contradiction|reflexivity]).
@@ -346,12 +425,16 @@ End Tamper.
 
 (* ------------------------------------------------------------------ what build produces *)
 
-Definition build_hdr (h : header) (phase : bool) (w blen : Z) : list Z :=
-  Z.lor (hd 0 (put_header h)) ((w - 1) + (if is_short h && phase then 4 else 0))
+Definition build_hdr (rsv : Z) (h : header) (phase : bool) (w blen : Z) : list Z :=
+  Z.lor (hd 0 (put_header h)) ((w - 1) + (if is_short h && phase then 4 else 0) + rsv)
     :: tl (put_header h) ++ (if is_short h then [] else put_be 2 (2 ^ 14 + (w + blen + TAG_LEN))).
-Definition build_aad (h : header) (phase : bool) (e : pnum) (blen : Z) : list Z :=
-  build_hdr h phase (width e) blen ++ pn_bytes e.
+Definition build_aad_r (rsv : Z) (h : header) (phase : bool) (e : pnum) (blen : Z) : list Z :=
+  build_hdr rsv h phase (width e) blen ++ pn_bytes e.
+Definition build_aad := build_aad_r 0.
 Definition pn_off (h : header) : Z := header_size h + (if is_short h then 0 else 2).
+
+(* values of the two reserved bits of the first byte *)
+Definition rsv_values (short : bool) : list Z := if short then [0; 8; 16; 24] else [0; 4; 8; 12].
 
 Lemma width_range e : 1 <= width e <= 4.
 Proof. destruct e; cbn; lia. Qed.
@@ -359,88 +442,92 @@ Proof. destruct e; cbn; lia. Qed.
 Lemma zlen_pn_bytes e : zlen (pn_bytes e) = width e.
 Proof. unfold pn_bytes. rewrite put_be_zlen. pose proof (width_range e). lia. Qed.
 
+(* first byte written by encode_{long,short}_first_byte: pn-length bits, key-phase bit, reserved bits *)
+Lemma first_byte_facts rsv h phase e blen : is_data h = true -> In rsv (rsv_values (is_short h)) ->
+  let b0 := hd 0 (build_aad_r rsv h phase e blen) in
+  width e = Z.land b0 3 + 1 /\ Z.land b0 (reserved_mask (is_short h)) = rsv /\
+  (is_short h && bit_set b0 4) = (is_short h && phase) /\ is_short h = negb (bit_set b0 128).
+Proof.
+  intros Hd Hin. unfold build_aad_r, build_hdr. cbn [app hd].
+  destruct h as [d s vs|d s tok integ|d s tok|d s|d s|spin d]; try discriminate;
+    unfold put_header; cbn [header_type put_packet_type v1_bits app hd is_short andb reserved_mask rsv_values] in *;
+    destruct Hin as [<-|[<-|[<-|[<-|[]]]]];
+    try destruct spin; destruct phase; destruct e; cbn [width]; vm_compute; repeat split; reflexivity.
+Qed.
+
+Lemma zlen_build_aad rsv h phase e blen : wf_header h -> is_data h = true ->
+  zlen (build_aad_r rsv h phase e blen) = pn_off h + width e /\ build_aad_r rsv h phase e blen <> [] /\
+  zlen (build_hdr rsv h phase (width e) blen) = pn_off h.
+Proof.
+  intros Hwf Hd. pose proof (p_c05_header_size h Hwf) as Hs.
+  assert (Hh : zlen (build_hdr rsv h phase (width e) blen) = pn_off h).
+  { unfold build_hdr, pn_off. rewrite zlen_cons, zlen_app.
+    assert (Hne : put_header h <> []) by (unfold put_header; destruct h; cbn; try destruct spin; discriminate).
+    destruct (put_header h) as [|b r] eqn:Eh; [contradiction|]. cbn [tl]. rewrite zlen_cons in Hs.
+    destruct h; try discriminate; cbn [is_short]; rewrite ?put_be_zlen, ?zlen_nil; lia. }
+  split; [|split; [|exact Hh]].
+  - unfold build_aad_r. rewrite zlen_app, zlen_pn_bytes, Hh. reflexivity.
+  - unfold build_aad_r, build_hdr. discriminate.
+Qed.
+
 Section Build.
   Variables key hkey : Type.
   Variable enc : key -> Z -> list Z -> list Z -> list Z.
   Variable dec : key -> Z -> list Z -> list Z -> option (list Z).
   Variable mask : hkey -> list Z -> list Z.
 
-  Lemma build_spec h phase pn e body bufsz k hk P :
-    build key hkey enc mask h phase pn e body bufsz k hk = BOk P ->
-    let aad := build_aad h phase e (zlen body) in
+  Lemma build_spec rsv h phase pn e body bufsz k hk P :
+    build_r key hkey enc mask rsv h phase pn e body bufsz k hk = BOk P ->
+    let aad := build_aad_r rsv h phase e (zlen body) in
     is_data h = true /\
     hp_protect hkey mask hk (aad ++ enc k pn aad body) (pn_off h) (width e) = Some P /\
     20 <= width e + zlen body + TAG_LEN /\ pn_off h + 20 <= bufsz /\
     (is_short h = false -> width e + zlen body + TAG_LEN < 2 ^ 14).
   Proof.
-    unfold build. destruct (is_data h) eqn:Ed; cbn [negb]; [|discriminate].
+    unfold build_r. destruct (is_data h) eqn:Ed; cbn [negb]; [|discriminate].
     destruct (Z.ltb_spec bufsz (header_size h + (if is_short h then 0 else 2) + 20)) as [|Hb]; [discriminate|].
     destruct (Z.ltb_spec (bufsz - TAG_LEN - (header_size h + (if is_short h then 0 else 2) + width e)) (zlen body)) as [|Hf]; [discriminate|].
     destruct (Z.ltb_spec (width e + zlen body + TAG_LEN) 20) as [|H20]; [discriminate|].
     destruct (negb (is_short h) && (2 ^ 14 <=? width e + zlen body + TAG_LEN)) eqn:E14; [discriminate|].
     match goal with |- context [hp_protect _ _ ?a ?b ?c ?d] => destruct (hp_protect hkey mask a b c d) as [p|] eqn:EP end; [|discriminate].
     intro H. injection H as <-. cbv zeta. split; [reflexivity|]. split; [|split; [lia|split; [unfold pn_off; lia|]]].
-    - unfold build_aad, build_hdr, pn_off. exact EP.
+    - unfold build_aad_r, build_hdr, pn_off. exact EP.
     - intro Hs. rewrite Hs in E14. cbn [negb andb] in E14. apply Z.leb_gt in E14. exact E14.
   Qed.
 
-  (* first byte written by encode_{long,short}_first_byte: pn-length bits, key-phase bit, reserved bits *)
-  Lemma first_byte_facts h phase e blen : is_data h = true ->
-    let b0 := hd 0 (build_aad h phase e blen) in
-    width e = Z.land b0 3 + 1 /\ Z.land b0 (reserved_mask (is_short h)) = 0 /\
-    (is_short h && bit_set b0 4) = (is_short h && phase).
-  Proof.
-    intros Hd. unfold build_aad, build_hdr. cbn [app hd].
-    destruct h as [d s vs|d s tok integ|d s tok|d s|d s|spin d]; try discriminate;
-      unfold put_header; cbn [header_type put_packet_type v1_bits app hd is_short andb reserved_mask];
-      try destruct spin; destruct phase; destruct e; cbn [width]; vm_compute; repeat split; reflexivity.
-  Qed.
-
-  Lemma zlen_build_aad h phase e blen : wf_header h -> is_data h = true ->
-    zlen (build_aad h phase e blen) = pn_off h + width e /\ build_aad h phase e blen <> [] /\
-    zlen (build_hdr h phase (width e) blen) = pn_off h.
-  Proof.
-    intros Hwf Hd. pose proof (p_c05_header_size h Hwf) as Hs.
-    assert (Hh : zlen (build_hdr h phase (width e) blen) = pn_off h).
-    { unfold build_hdr, pn_off. rewrite zlen_cons, zlen_app.
-      assert (Hne : put_header h <> []) by (unfold put_header; destruct h; cbn; try destruct spin; discriminate).
-      destruct (put_header h) as [|b r] eqn:Eh; [contradiction|]. cbn [tl]. rewrite zlen_cons in Hs.
-      destruct h; try discriminate; cbn [is_short]; rewrite ?put_be_zlen, ?zlen_nil; lia. }
-    split; [|split; [|exact Hh]].
-    - unfold build_aad. rewrite zlen_app, zlen_pn_bytes, Hh. reflexivity.
-    - unfold build_aad, build_hdr. discriminate.
-  Qed.
-
-  (* ROUND TRIP.  The one step not proved in general is that be_packet finds the header in the protected
-     bytes ([Hparse]: the masked low bits of the first byte and the 2-byte length field do not disturb the
+  (* ROUND TRIP (rsv = 0) and the answer to an AUTHENTIC packet with reserved bits set (rsv <> 0).
+     The one step not proved in general is that be_packet finds the header in the protected bytes
+     ([Hparse]: the masked low bits of the first byte and the 2-byte length field do not disturb the
      header parser); it is discharged by computation on instances in Properties/C06.v and checked on every
      generated packet by the correspondence stream. *)
   Hypothesis enc_dec : forall k n a p, dec k n a (enc k n a p) = Some p.
   Hypothesis enc_len : forall k n a p, zlen (enc k n a p) = zlen p + TAG_LEN.
 
-  Lemma p_c06_roundtrip h phase pn e body bufsz k hk P dl exp :
-    build key hkey enc mask h phase pn e body bufsz k hk = BOk P -> wf_header h ->
+  Lemma p_c06_roundtrip_r rsv h phase pn e body bufsz k hk P dl exp :
+    build_r key hkey enc mask rsv h phase pn e body bufsz k hk = BOk P -> wf_header h ->
+    In rsv (rsv_values (is_short h)) ->
     be_packet dl P = POk h (zlen P) (pn_off h) ->
     0 <= exp -> decode (wire e) exp = DecOk pn -> 0 <= payload e < 2 ^ (8 * width e) ->
-    recv1 key hkey dec mask k hk dl exp P = RxAccept h (zlen P) pn (is_short h && phase) body.
+    recv1 key hkey dec mask k hk dl exp P =
+      if rsv =? 0 then RxAccept h (zlen P) pn (is_short h && phase) body else RxConnErr.
   Proof.
-    intros HB Hwf Hparse Hexp Hdecode Hpay.
-    destruct (build_spec _ _ _ _ _ _ _ _ _ HB) as (Hd & HP & H20 & _ & _).
-    set (aad := build_aad h phase e (zlen body)) in *.
-    destruct (zlen_build_aad h phase e (zlen body) Hwf Hd) as (Hla & Hne & Hlh). fold aad in Hla, Hne.
-    destruct (first_byte_facts h phase e (zlen body) Hd) as (Hw & Hres & Hph). fold aad in Hw, Hres, Hph.
+    intros HB Hwf Hrsv Hparse Hexp Hdecode Hpay.
+    destruct (build_spec _ _ _ _ _ _ _ _ _ _ HB) as (Hd & HP & H20 & _ & _).
+    set (aad := build_aad_r rsv h phase e (zlen body)) in *.
+    destruct (zlen_build_aad rsv h phase e (zlen body) Hwf Hd) as (Hla & Hne & Hlh). fold aad in Hla, Hne.
+    destruct (first_byte_facts rsv h phase e (zlen body) Hd Hrsv) as (Hw & Hres & Hph & _). fold aad in Hw, Hres, Hph.
     pose proof (width_range e) as Hwr. pose proof (zlen_nonneg body) as Hb0.
     set (U0 := aad ++ enc k pn aad body) in *.
     assert (HhdU : hd 0 U0 = hd 0 aad) by (unfold U0; destruct aad; [contradiction|reflexivity]).
     assert (HlU : zlen U0 = pn_off h + width e + (zlen body + TAG_LEN)) by (unfold U0; rewrite zlen_app, enc_len, Hla; lia).
     assert (Hoff : 1 <= pn_off h) by (apply (packet_off_pos _ _ _ _ _ Hparse)).
-    destruct (protect_unprotect hkey mask hk (is_short h) U0 (pn_off h) (width e) P HP ltac:(lia) Hwr
-                ltac:(rewrite HhdU; exact Hw) ltac:(rewrite HhdU; exact Hres)) as (v & HU & HlP & Hv).
+    destruct (protect_unprotect hkey mask hk U0 (pn_off h) (width e) P HP ltac:(lia) Hwr
+                ltac:(rewrite HhdU; exact Hw)) as (v & HU & HlP & Hv).
     unfold recv1, recv. rewrite Hparse.
     assert (Hfull : firstn (Z.to_nat (zlen P)) P = P) by apply firstn_zlen.
     (* the undecoded packet number read back is the one written *)
     assert (Hsk : skipn (Z.to_nat (pn_off h)) U0 = pn_bytes e ++ enc k pn aad body).
-    { unfold U0, aad, build_aad. rewrite <- app_assoc. apply skipn_exact. exact Hlh. }
+    { unfold U0, aad, build_aad_r. rewrite <- app_assoc. apply skipn_exact. exact Hlh. }
     assert (Hvv : mk_pnum (width e) v = wire e).
     { rewrite Hv, Hsk. unfold sub. cbn [Z.to_nat skipn]. rewrite (firstn_exact _ _ _ (zlen_pn_bytes e)).
       unfold pn_bytes. rewrite <- (app_nil_r (put_be _ _)).
@@ -457,14 +544,41 @@ Section Build.
        match ko with
        | None => (RxPanic 3, s')
        | Some k0 => match dec k0 pn (firstn (Z.to_nat (pn_off h + width e)) U0) (skipn (Z.to_nat (pn_off h + width e)) U0) with
-                    | Some body0 => (RxAccept hh (zlen P) pn (is_short hh && bit_set (hd 0 U0) 4) body0, s')
-                    | None => (RxDecrypt, s') end end) = (RxAccept h (zlen P) pn (is_short h && phase) body, tt)).
-    { intros hh ->. rewrite <- Hla. destruct (is_short h) eqn:Es; cbn [andb] in Hph |- *;
-        unfold U0; rewrite firstn_zlen_app, skipn_zlen_app, enc_dec; fold U0; rewrite ?HhdU, ?Hph; reflexivity. }
+                    | Some body0 => if negb (Z.land (hd 0 U0) (reserved_mask (is_short hh)) =? 0) then (RxConnErr, s')
+                                    else (RxAccept hh (zlen P) pn (is_short hh && bit_set (hd 0 U0) 4) body0, s')
+                    | None => (RxDecrypt, s') end end) =
+      (if rsv =? 0 then RxAccept h (zlen P) pn (is_short h && phase) body else RxConnErr, tt)).
+    { intros hh ->. rewrite <- Hla. rewrite HhdU, Hres. destruct (is_short h) eqn:Es; cbn [andb] in Hph |- *;
+        unfold U0; rewrite firstn_zlen_app, skipn_zlen_app, enc_dec; rewrite ?Hph;
+        destruct (rsv =? 0); reflexivity. }
     destruct h as [d s vs|d s tok integ|d s tok|d s|d s|spin d]; try discriminate;
       rewrite Hfull; cbn [is_short] in *; rewrite HU; (destruct (Z.ltb_spec exp 0); [lia|]);
       rewrite Hvv, Hdecode; cbn [fst snd].
     all: pose proof (Hacc _ eq_refl) as HA; cbn [is_short] in HA; rewrite HA; reflexivity.
+  Qed.
+
+  Lemma p_c06_roundtrip h phase pn e body bufsz k hk P dl exp :
+    build key hkey enc mask h phase pn e body bufsz k hk = BOk P -> wf_header h ->
+    be_packet dl P = POk h (zlen P) (pn_off h) ->
+    0 <= exp -> decode (wire e) exp = DecOk pn -> 0 <= payload e < 2 ^ (8 * width e) ->
+    recv1 key hkey dec mask k hk dl exp P = RxAccept h (zlen P) pn (is_short h && phase) body.
+  Proof.
+    intros HB Hwf Hp He Hd Hpay.
+    refine (p_c06_roundtrip_r 0 h phase pn e body bufsz k hk P dl exp HB Hwf _ Hp He Hd Hpay).
+    destruct (is_short h); left; reflexivity.
+  Qed.
+
+  (* an AUTHENTIC packet whose reserved bits are set is answered with the connection error *)
+  Lemma p_c06_authentic_reserved rsv h phase pn e body bufsz k hk P dl exp :
+    build_r key hkey enc mask rsv h phase pn e body bufsz k hk = BOk P -> wf_header h ->
+    In rsv (rsv_values (is_short h)) -> rsv <> 0 ->
+    be_packet dl P = POk h (zlen P) (pn_off h) ->
+    0 <= exp -> decode (wire e) exp = DecOk pn -> 0 <= payload e < 2 ^ (8 * width e) ->
+    recv1 key hkey dec mask k hk dl exp P = RxConnErr.
+  Proof.
+    intros HB Hwf Hin Hne Hp He Hd Hpay.
+    rewrite (p_c06_roundtrip_r rsv h phase pn e body bufsz k hk P dl exp HB Hwf Hin Hp He Hd Hpay).
+    destruct (Z.eqb_spec rsv 0); [contradiction|reflexivity].
   Qed.
 End Build.
 
@@ -477,6 +591,49 @@ Section Statements.
   Variable mask : hkey -> list Z -> list Z.
   Hypothesis auth : forall k n a c p, dec k n a c = Some p -> c = enc k n a p.
 
+  (* DISCARDED.  The honest sender built P (reserved bits 0, as the writer always does).  Whatever datagram
+     reaches a receiver holding any packet key, any header key and any packet-number expectation, the receive
+     path either DROPS it, or it delivers exactly the sender's packet (sender's key, packet number and body;
+     bit for bit the bytes sent when header protection was removed with the sender's header key).
+     It never answers with a connection error. *)
+  Lemma p_c06_tamper_discarded h phase pn e body bufsz k hk P :
+    build key hkey enc mask h phase pn e body bufsz k hk = BOk P -> wf_header h ->
+    forall k' hk' dl exp dg,
+      no_forgery key enc k pn (build_aad h phase e (zlen body)) body dg ->
+      (forall n v, decode (mk_pnum n v) exp <> DecOverflow) ->
+      let r := recv1 key hkey dec mask k' hk' dl exp dg in
+      dropped r \/
+      exists h' total ph, r = RxAccept h' total pn ph body /\ k' = k /\ is_short h' = is_short h /\
+                          (hk' = hk -> firstn (Z.to_nat total) dg = P).
+  Proof.
+    intros HB Hwf k' hk' dl exp dg Hnf Hov. cbv zeta.
+    destruct (build_spec _ _ enc dec mask _ _ _ _ _ _ _ _ _ _ HB) as (Hd & HP & _).
+    destruct (zlen_build_aad 0 h phase e (zlen body) Hwf Hd) as (Hla & Hne & _).
+    assert (Hin : In 0 (rsv_values (is_short h))) by (destruct (is_short h); left; reflexivity).
+    destruct (first_byte_facts 0 h phase e (zlen body) Hd Hin) as (Hw & Hres & _ & Hform).
+    destruct (recv1_cases key hkey enc dec mask auth k' hk' dl exp dg Hov) as [Hdrop|(h' & total & off & U & n & v & pn' & body' & Hbe & Hd' & HU & Hdec & _ & _ & Hr)];
+      [left; exact Hdrop|].
+    destruct (p_c06_authentic key hkey enc dec mask auth k hk pn _ body _ _ P k' hk' dl dg h' total off U n v pn' body'
+                HP Hla Hw Hne Hnf Hbe HU Hdec) as (-> & -> & -> & HUeq & HPeq).
+    (* the parsed header has the sender's form, so the reserved mask applied is the sender's: the bits are 0 *)
+    assert (HhdU : hd 0 U = hd 0 (build_aad_r 0 h phase e (zlen body))).
+    { rewrite HUeq. revert Hne. generalize (build_aad_r 0 h phase e (zlen body)).
+      intros [|x l] Hne; [contradiction|reflexivity]. }
+    assert (Hsh : is_short h' = is_short h).
+    { rewrite (be_packet_form _ _ _ _ _ Hbe), Hform, <- HhdU.
+      (* first byte of dg: unmasking does not touch the form bit *)
+      pose proof (p_c03_packet_bounds _ _ _ _ _ Hbe) as [Ht _].
+      assert (Hhd : hd 0 dg = hd 0 (firstn (Z.to_nat total) dg)).
+      { destruct dg; [cbn in Ht; lia|]. replace (Z.to_nat total) with (S (Z.to_nat (total - 1))) by lia. reflexivity. }
+      unfold unprotect in HU. destruct (zlen (skipn (Z.to_nat off) (firstn (Z.to_nat total) dg)) <? 4 + SAMPLE_LEN); [discriminate|].
+      injection HU as HU _ _. rewrite <- HU. cbn [hd]. rewrite Hhd.
+      change 128 with (2 ^ 7). rewrite !bit_set_testbit by lia.
+      rewrite Z.lxor_spec, land_small_bit; [now rewrite xorb_false_r|apply hp_bits_range|lia]. }
+    rewrite Hsh, HhdU, Hres in Hr. cbn [Z.eqb negb] in Hr.
+    right. exists h', total, (is_short h && bit_set (hd 0 (build_aad_r 0 h phase e (zlen body))) 4).
+    split; [exact Hr|split; [reflexivity|split; [exact Hsh|exact HPeq]]].
+  Qed.
+
   Lemma p_c06_tamper_rejected h phase pn e body bufsz k hk P :
     build key hkey enc mask h phase pn e body bufsz k hk = BOk P -> wf_header h ->
     forall k' hk' dl exp dg h' total pn' ph body',
@@ -485,25 +642,52 @@ Section Statements.
       k' = k /\ pn' = pn /\ body' = body /\ (hk' = hk -> firstn (Z.to_nat total) dg = P).
   Proof.
     intros HB Hwf k' hk' dl exp dg h' total pn' ph body' Hnf Hacc.
-    destruct (build_spec _ _ enc dec mask _ _ _ _ _ _ _ _ _ HB) as (Hd & HP & _).
-    destruct (zlen_build_aad key hkey enc dec mask h phase e (zlen body) Hwf Hd) as (Hla & Hne & _).
-    destruct (first_byte_facts h phase e (zlen body) Hd) as (Hw & _).
-    exact (p_c06_tamper key hkey enc dec mask auth k hk pn _ body _ _ P k' hk' dl exp dg h' total pn' ph body' HP Hla Hw Hne Hnf Hacc).
+    destruct (build_spec _ _ enc dec mask _ _ _ _ _ _ _ _ _ _ HB) as (Hd & HP & _).
+    destruct (zlen_build_aad 0 h phase e (zlen body) Hwf Hd) as (Hla & Hne & _).
+    assert (Hin : In 0 (rsv_values (is_short h))) by (destruct (is_short h); left; reflexivity).
+    destruct (first_byte_facts 0 h phase e (zlen body) Hd Hin) as (Hw & _).
+    (* read the successful AEAD check off the accepting run *)
+    unfold recv1, recv in Hacc. destruct (be_packet dl dg) as [h1 total1 off|e1|s1] eqn:Hbe; cbn [fst] in Hacc; try discriminate.
+    assert (X : exists U n v, unprotect hkey mask hk' (firstn (Z.to_nat total1) dg) off = UOk U n v /\
+                  dec k' pn' (firstn (Z.to_nat (off + n)) U) (skipn (Z.to_nat (off + n)) U) = Some body' /\ total1 = total).
+    { destruct h1 as [d s vs|d s tok integ|d s tok|d s|d s|spin d]; cbn [fst] in Hacc; try discriminate.
+      all: destruct (unprotect hkey mask hk' (firstn (Z.to_nat total1) dg) off) as [U n v|] eqn:EU; cbn [fst] in Hacc; try discriminate.
+      all: destruct (exp <? 0); cbn [fst] in Hacc; try discriminate.
+      all: destruct (decode (mk_pnum n v) exp) as [pn1|]; cbn [fst] in Hacc; try discriminate.
+      all: cbn [is_short fst snd andb] in Hacc.
+      all: destruct (dec k' pn1 (firstn (Z.to_nat (off + n)) U) (skipn (Z.to_nat (off + n)) U)) as [b|] eqn:Edec; cbn [fst] in Hacc; try discriminate.
+      all: match type of Hacc with context [if ?c then _ else _] => destruct c end; cbn [fst] in Hacc; try discriminate.
+      all: injection Hacc as <- <- <- <- <-; exists U, n, v; auto. }
+    destruct X as (U & n & v & HU & Hdec & <-).
+    destruct (p_c06_authentic key hkey enc dec mask auth k hk pn _ body _ _ P k' hk' dl dg h1 total1 off U n v pn' body'
+                HP Hla Hw Hne Hnf Hbe HU Hdec) as (H1 & H2 & H3 & _ & H5). auto.
   Qed.
 
   (* any datagram of the same length that differs from the packet sent — in particular every single-bit
-     flip — is not accepted by a receiver that removes header protection with the sender's header key *)
-  Lemma p_c06_modified_rejected h phase pn e body bufsz k hk P :
+     flip — is DROPPED by a receiver that removes header protection with the sender's header key *)
+  Lemma p_c06_modified_dropped h phase pn e body bufsz k hk P :
     build key hkey enc mask h phase pn e body bufsz k hk = BOk P -> wf_header h ->
     forall k' dl exp dg, zlen dg = zlen P -> dg <> P ->
       no_forgery key enc k pn (build_aad h phase e (zlen body)) body dg ->
-      forall h' total pn' ph body', recv1 key hkey dec mask k' hk dl exp dg <> RxAccept h' total pn' ph body'.
+      (forall n v, decode (mk_pnum n v) exp <> DecOverflow) ->
+      dropped (recv1 key hkey dec mask k' hk dl exp dg).
   Proof.
-    intros HB Hwf k' dl exp dg Hlen Hne Hnf h' total pn' ph body' Hacc.
-    destruct (p_c06_tamper_rejected _ _ _ _ _ _ _ _ _ HB Hwf _ _ _ _ _ _ _ _ _ _ Hnf Hacc) as (_ & _ & _ & HPeq).
+    intros HB Hwf k' dl exp dg Hlen Hne Hnf Hov.
+    destruct (p_c06_tamper_discarded _ _ _ _ _ _ _ _ _ HB Hwf k' hk dl exp dg Hnf Hov) as [H|(h' & total & ph & Hr & _ & _ & HPeq)];
+      [exact H|exfalso].
     specialize (HPeq eq_refl).
-    destruct (recv1_accept_inv _ _ dec mask _ _ _ _ _ _ _ _ _ _ Hacc) as (off & _ & _ & _ & Hbe & _).
+    unfold recv1, recv in Hr. destruct (be_packet dl dg) as [h1 total1 off|e1|s1] eqn:Hbe; cbn [fst] in Hr; try discriminate.
     pose proof (p_c03_packet_bounds _ _ _ _ _ Hbe) as [Ht _].
+    assert (total1 = total).
+    { destruct h1; cbn [fst] in Hr; try discriminate.
+      all: destruct (unprotect hkey mask hk (firstn (Z.to_nat total1) dg) off) as [U n v|]; cbn [fst] in Hr; try discriminate.
+      all: destruct (exp <? 0); cbn [fst] in Hr; try discriminate.
+      all: destruct (decode (mk_pnum n v) exp) as [pn1|]; cbn [fst] in Hr; try discriminate.
+      all: cbn [is_short fst snd andb] in Hr.
+      all: match type of Hr with context [dec ?a ?b ?c ?d] => destruct (dec a b c d) end; cbn [fst] in Hr; try discriminate.
+      all: match type of Hr with context [if ?c then _ else _] => destruct c end; cbn [fst] in Hr; try discriminate.
+      all: injection Hr as _ H _ _ _; exact H. }
+    subst total1.
     assert (Hl : zlen P = total) by (rewrite <- HPeq; apply zlen_firstn; lia).
     apply Hne. rewrite <- HPeq, <- Hl, <- Hlen. symmetry. apply firstn_zlen.
   Qed.
